@@ -14,6 +14,8 @@ import (
 	"sort"
 	"strconv"
 	"strings"
+	"sync/atomic"
+	"time"
 
 	"golang.org/x/tools/go/ssa"
 
@@ -235,6 +237,7 @@ func (i *interpreter) doAssert(fr *frame, label string, cond *smt.Term, kid stri
 			i.noteInconclusive("solver returned unknown on assertion " + label)
 		}
 	}
+	i.crossCheck(neg, viol, label)
 	if !viol {
 		i.assertPC(cond)
 		return
@@ -666,3 +669,34 @@ func extSortStrings(fr *frame, a []value) value {
 var _ = ssa.NaiveForm
 
 const tokenADD = token.ADD
+
+// crossCheck re-decides a sample of the assertion queries (PC ∧ ¬assertion)
+// with two other solvers (z3 5.x and cvc5) from a standalone script; a
+// disagreement makes the run inconclusive.
+func (i *interpreter) crossCheck(neg *smt.Term, sat bool, label string) {
+	n := atomic.AddInt64(&i.cfg.assertQueries, 1)
+	if i.cfg.CrossCheckEvery <= 0 || (n > 8 && n%int64(i.cfg.CrossCheckEvery) != 0) {
+		return
+	}
+	script := i.sol.Script(neg)
+	want := smt.Unsat
+	if sat {
+		want = smt.Sat
+	}
+	for _, alt := range [][]string{{"z3-new", "-in"}, {"cvc5", "--incremental"}} {
+		sc := script
+		if alt[0] == "cvc5" {
+			sc = "(set-logic QF_BV)\n" + script
+		}
+		res, _ := smt.RunScript(alt[0], alt[1:], sc, 60*time.Second)
+		atomic.AddInt64(&i.cfg.crossChecks, 1)
+		if res == smt.Unknown {
+			atomic.AddInt64(&i.cfg.crossUnknown, 1)
+			continue
+		}
+		if res != want {
+			atomic.AddInt64(&i.cfg.crossDisagree, 1)
+			i.noteInconclusive(fmt.Sprintf("solver disagreement on assertion %s: z3 4.8.12 says %v, %s says %v", label, want, alt[0], res))
+		}
+	}
+}
